@@ -116,6 +116,8 @@ class NP(_Stub):
     # ---- construction ----------------------------------------------------
     def array(self, x, dtype=None, copy=True):
         _use("numpy.array")
+        if hasattr(x, "__pyvc_array__"):
+            return x.__pyvc_array__(dtype)
         if copy is False and isinstance(x, (CArr, SArr)):
             return x
         if isinstance(x, SArr):
